@@ -1,4 +1,256 @@
-import SafeC.Models.Copy
-/-! Property theorems for C17 (see DESIGN.md §4). -/
+import SafeC.Proofs.NormSpec
+import SafeC.Proofs.NormRoom
+import SafeC.Proofs.NormCompose
+import SafeC.Proofs.NormNFC2
+import SafeC.Proofs.FoldCount
+/-!
+# C17 — "Unicode normalization and case folding follow the Unicode standard"
+
+*For every wide string of assigned Unicode scalar values, wcsnorm_s in NFD and NFC mode produces the normalization form defined by
+UAX #15 (and reports its length), normalizing twice gives the same result as once, and the number of characters towfc_s/wcsfc_s
+emit for a character equals what iswfc announces, so that a destination sized from the announced lengths always suffices.  Code
+points above U+10FFFF are rejected rather than used as table indices.*
+
+Models: `SafeC.Norm` (Models/Norm.lean: `wcsnormS`, `reorderS`, `composeS`, tables regenerated from the tree on every run),
+`SafeC.Fold` (Models/Fold.lean).  Reference: `SafeC.UCD` (Proofs/UnicodeSpec.lean) over `SafeC.Gen.UCD14` (Python unicodedata
+14.0.0).  Only property statements here; proofs in `SafeC/Proofs/Norm*.lean`, `FoldCount.lean`.
+
+What is false of the code as it stands, and therefore `_partial` + `_witness` (each witness is replayed on the real C by the check):
+* U+037E is never decomposed (`TBL(1)|0` reads as "none")                 → `tables_match_ucd_partial`, `nfd_is_uax15_partial`
+* a destination of exactly the result's size is rejected (5-cell margin)   → `nfd_exact_fit_witness`
+* NFC composes `a + U+10300` to `à` (`(uint16_t)cp2`)                      → `nfc_cast_witness`, repaired: `nfc_cast_fixed`
+* wcsnorm_reorder_s / wcsnorm_compose_s index tables with cells > 0x10FFFF → `reorder_range_witness`, `compose_range_witness`,
+  repaired: `reorder_range_fixed`, `compose_range_fixed`
+* iswfc announces 0/1 where towfc_s does / does not fold (748 code points) → `fold_announce_partial`, witnesses in FoldCount.lean
+NFC: `nfc_model` (every input, as is and repaired: EOK ⇒ dest = D117 on the NFD), `nfc_is_uax15_fixed_partial` (repaired code = UAX #15
+NFC over UCD 14.0, all strings of assigned code points ≠ U+037E), `nfc_is_uax15_partial` (code as it is, when the NFD lies in the BMP).
+NFC idempotence is NOT proved (it needs the stability of NFC under re-decomposition); it is checked on the implementation.
+-/
 namespace SafeC.Props.C17
+open SafeC.Norm SafeC.Gen
+
+/-! ## tables -/
+
+/-- table closure: every cell the decomposition pass writes for any `c` is itself left alone by the pass (so the stored
+decompositions are full decompositions; Hangul included) -/
+theorem tables_closed {c d : Nat} (hd : d ∈ decompose1 c) : decompose1 d = [d] := decompose1_fixed hd
+
+/-- the tree's decomposition and combining-class tables = UCD 14.0 (mappings expanded recursively, D68) on every assigned code
+point; full statement (without `c ≠ 0x37E`) is false: `tables_match_ucd_witness` -/
+theorem tables_match_ucd_partial {c : Nat} (h : UCD.assigned c = true) (h37e : c ≠ 0x37E) :
+    decompose1 c = UCD.fullDecomp 4 c ∧ combinClass c = some (UCD.ccc c) :=
+  ⟨decomp_matches_ucd_partial h h37e, ccc_matches_ucd h⟩
+
+theorem tables_match_ucd_witness : UCD.assigned 0x37E = true ∧ decompose1 0x37E = [0x37E] ∧ UCD.fullDecomp 4 0x37E = [0x3B] :=
+  dm_37e_witness
+
+example : UCD.assigned 0x1E69 = true ∧ (0x1E69 : Nat) ≠ 0x37E ∧ UCD.fullDecomp 4 0x1E69 = [0x73, 0x323, 0x307] := by decide +kernel
+
+/-- the reference expansion really is a full decomposition: nothing in it has a mapping or is a Hangul syllable (4 levels suffice) -/
+theorem ucd_fullDecomp_is_full {c d : Nat} (hc : c < 0x110000) (hs : UCD.isHangulS c = false) (hd : d ∈ UCD.fullDecomp 4 c) :
+    UCD.dm d = none ∧ UCD.isHangulS d = false :=
+  let h := fullDecomp_fixed hc hd (by rw [isS_iff]; exact hs); ⟨h.1, h.2.1⟩
+
+/-! ## canonical reordering (all lists) -/
+
+/-- `wcsnorm_reorder_s` computes the Canonical Ordering (D108/D109) of its input: reachable by exchanging reorderable pairs, no
+reorderable pair left, a permutation, same length — for every list, any class function the table realises -/
+theorem reorder_canonical (fx : Fixes) (k : Nat → Nat) (xs : List Nat) (dmax : Nat)
+    (hk : ∀ c ∈ xs, combinClass c = some (k c)) (hr : fx.rangeChk = true → ∀ c ∈ xs, c ≤ UniCompos.unicodeMax)
+    (hd : xs.length < dmax) :
+    ∃ ys, reorderLoop fx xs [] dmax = .ok ys (dmax - xs.length) ∧ IsCanonicalOrdering k xs ys ∧ ys.Perm xs ∧ ys.length = xs.length :=
+  reorderLoop_canonical fx k xs dmax hk hr hd
+
+example : (∀ c ∈ [0x61, 0x301, 0x323, 0x62], combinClass c = some (kcc c)) ∧ kcc 0x301 = 230 ∧ kcc 0x323 = 220 ∧
+    reorderLoop current [0x61, 0x301, 0x323, 0x62] [] 8 = .ok [0x61, 0x323, 0x301, 0x62] 4 := by decide +kernel
+
+/-- the canonical ordering of a string is unique (so "a" canonical ordering is "the" canonical ordering) -/
+theorem canonical_ordering_unique {k : Nat → Nat} {xs ys zs : List Nat}
+    (h1 : IsCanonicalOrdering k xs ys) (h2 : IsCanonicalOrdering k xs zs) : ys = zs := canonicalOrdering_unique h1 h2
+
+/-- starters stay where they are and characters of equal class keep their order (stability) -/
+theorem reorder_stable (k : Nat → Nat) (n : Nat) (xs : List Nat) :
+    (reorderPure k xs).map (fun c => if k c = 0 then some c else none) = xs.map (fun c => if k c = 0 then some c else none) ∧
+    (reorderPure k xs).filter (fun c => k c = n) = xs.filter (fun c => k c = n) :=
+  ⟨reorderPure_starters_fixed k xs, reorderPure_filter_class k n xs⟩
+
+example : reorderPure (· / 10) [31, 12, 5, 25, 21, 11, 22, 7, 7, 30, 10] = [12, 31, 5, 11, 25, 21, 22, 7, 7, 10, 30] := by decide
+
+/-! ## NFD -/
+
+/-- `wcsnorm_s(dest, dmax, src, WCSNORM_NFD, &len)`, every input: whenever it returns EOK, dest = NFD of the source by the tree's
+tables and `*lenp` = its length (and fits: `< dmax`); it returns EOK only if all cells were code points; it never indexes a table
+out of bounds -/
+theorem nfd_model (fx : Fixes) (dmax : Nat) (src : List Nat) (h0 : ∀ c ∈ src, c ≠ 0) :
+    (wcsnormS fx 0 dmax src).oob = false ∧ (wcsnormS fx 0 dmax src).overrun = false ∧
+    ((wcsnormS fx 0 dmax src).ret = 0 →
+      (wcsnormS fx 0 dmax src).out = nfdPure src ∧ (wcsnormS fx 0 dmax src).len = (nfdPure src).length ∧
+      (nfdPure src).length < dmax ∧ ∀ c ∈ src, c ≤ UniCompos.unicodeMax) :=
+  wcsnormS_nfd_spec fx dmax src h0
+
+/-- NFD of the model is NFD of UAX #15 over UCD 14.0 for every string of assigned code points (any length); with `nfd_model`:
+a successful `wcsnorm_s` NFD call on such a string leaves exactly the standard's NFD in dest.  U+037E excluded (finding). -/
+theorem nfd_is_uax15_partial (xs : List Nat) (h : ∀ c ∈ xs, UCD.assigned c = true ∧ c ≠ 0x37E) :
+    nfdPure xs = reorderPure UCD.ccc (UCD.decompose xs) ∧ IsCanonicalOrdering UCD.ccc (UCD.decompose xs) (nfdPure xs) :=
+  nfdPure_is_uax15 xs h
+
+/-- U+037E: dest keeps U+037E where the standard says U+003B -/
+theorem nfd_slot0_witness : (wcsnormS current 0 16 [0x37E]).ret = 0 ∧ (wcsnormS current 0 16 [0x37E]).out = [0x37E] ∧
+    reorderPure UCD.ccc (UCD.decompose [0x37E]) = [0x3B] := by decide +kernel
+
+example : (wcsnormS current 0 16 [0x1E69, 0xAC01]).ret = 0 ∧
+    (wcsnormS current 0 16 [0x1E69, 0xAC01]).out = [0x73, 0x323, 0x307, 0x1100, 0x1161, 0x11A8] ∧
+    UCD.assigned 0x1E69 = true ∧ UCD.assigned 0xAC01 = true := by decide +kernel
+
+/-- NFD is idempotent, every string -/
+theorem nfd_idempotent (xs : List Nat) : nfdPure (nfdPure xs) = nfdPure xs := nfdPure_idem xs
+
+/-- two successful calls: the second changes nothing -/
+theorem nfd_twice (fx : Fixes) (dmax dmax' : Nat) (src : List Nat) (h0 : ∀ c ∈ src, c ≠ 0)
+    (h1 : (wcsnormS fx 0 dmax src).ret = 0) (h2 : (wcsnormS fx 0 dmax' (wcsnormS fx 0 dmax src).out).ret = 0) :
+    (wcsnormS fx 0 dmax' (wcsnormS fx 0 dmax src).out).out = (wcsnormS fx 0 dmax src).out :=
+  wcsnormS_nfd_twice fx dmax dmax' src h0 h1 h2
+
+/-- sufficient room: `dmax ≤ RSIZE_MAX_WSTR` and five cells more than the NFD text ⇒ EOK (then `nfd_model` gives dest and `*lenp`).
+The full statement "the result and its terminator fit ⇒ EOK" is false: `nfd_exact_fit_witness` -/
+theorem nfd_succeeds_partial (fx : Fixes) (dmax : Nat) (src : List Nat) (hs : ∀ c ∈ src, c ≠ 0 ∧ c ≤ UniCompos.unicodeMax)
+    (hmax : dmax ≤ RSIZE_MAX_WSTR) (hroom : (nfdPure src).length + 5 ≤ dmax) : (wcsnormS fx 0 dmax src).ret = 0 :=
+  wcsnormS_nfd_succeeds fx dmax src hs hmax hroom
+
+example : (nfdPure [0x1E69]).length + 5 ≤ 8 ∧ (wcsnormS current 0 8 [0x1E69]).ret = 0 := by decide +kernel
+
+/-- a destination of exactly the size of the result (3 cells + terminator, and two more) is refused: ESNOSPC -/
+theorem nfd_exact_fit_witness : (wcsnormS current 0 6 [0x41, 0x42, 0x43]).ret = ESNOSPC ∧
+    (wcsnormS current 0 7 [0x41, 0x42, 0x43]).ret = 0 ∧ (nfdPure [0x41, 0x42, 0x43]).length = 3 := by decide +kernel
+
+/-! ## range -/
+
+/-- `wcsnorm_s`, every mode, every input (any cells, any dmax), as it is and repaired: no table index out of bounds, no unsigned
+wrap of dmax -/
+theorem range_no_oob (fx : Fixes) (mode dmax : Nat) (src : List Nat) :
+    (wcsnormS fx mode dmax src).oob = false ∧ (wcsnormS fx mode dmax src).overrun = false := wcsnormS_no_oob fx mode dmax src
+
+/-- a cell above U+10FFFF makes `wcsnorm_s` fail -/
+theorem range_rejected (fx : Fixes) (dmax : Nat) (src : List Nat) (h0 : ∀ c ∈ src, c ≠ 0)
+    (hbad : ∃ c ∈ src, UniCompos.unicodeMax < c) : (wcsnormS fx 0 dmax src).ret ≠ 0 := wcsnormS_nfd_rejects fx dmax src h0 hbad
+
+example : (wcsnormS current 0 16 [0x41, 0x110000]).ret = ESLEMAX := by decide +kernel
+
+/-- the table lookups themselves: in bounds exactly for code points -/
+theorem range_lookups (cp : Nat) :
+    (cp ≤ UniCompos.unicodeMax → decompCanon cp ≠ none ∧ combinClass cp ≠ none) ∧
+    (UniCompos.unicodeMax < cp → decompCanon cp = none ∧ combinClass cp = none) :=
+  ⟨fun h => ⟨decompCanon_ne_none h, combinClass_ne_none h⟩, fun h => ⟨decompCanon_oob h, combinClass_oob h⟩⟩
+
+/-- `wcsnorm_reorder_s` called directly with a cell > 0x10FFFF: `UNWIF_combin[cp >> 16]` is read out of bounds -/
+theorem reorder_range_witness : (reorderS unrepaired 64 [0x41, 0x7fffffff]).oob = true := by decide +kernel
+theorem compose_range_witness : (composeS unrepaired 64 [0x41, 0x110000] false).oob = true := by decide +kernel
+
+/-- repaired (`fixes/wcsnorm-wcsfc-range-checks.diff`): no out-of-bounds index for any input, and such a cell is rejected -/
+theorem reorder_range_fixed (dmax : Nat) (src : List Nat) : (reorderS allFixed dmax src).oob = false := by
+  unfold reorderS
+  split
+  · rfl
+  · have := reorderLoop_no_oob allFixed src [] dmax (Or.inl rfl)
+    cases h : reorderLoop allFixed src [] dmax with
+    | ok o d => rfl
+    | fail a b => rfl
+    | oob => exact absurd h this
+    | overrun => rfl
+
+theorem compose_range_fixed (dmax : Nat) (src : List Nat) (contig : Bool) : (composeS allFixed dmax src contig).oob = false := by
+  unfold composeS
+  split
+  · rfl
+  · have := composeLoop_no_oob allFixed contig src 0 false 0 [] dmax (Or.inl rfl)
+    cases h : composeLoop allFixed contig src 0 false 0 [] dmax with
+    | ok o d => rfl
+    | fail a b => rfl
+    | oob => exact absurd h this
+    | overrun => rfl
+
+example : (reorderS allFixed 64 [0x41, 0x7fffffff]).ret = ESLEMAX ∧ (composeS allFixed 64 [0x41, 0x110000] false).ret = ESLEMAX := by
+  decide +kernel
+
+/-- `wcsfc_s` hands a cell > 0x10FFFF to `_decomp_s` (single-character branch): out-of-bounds index; repaired: ESLEMAX -/
+theorem wcsfc_range_witness : (SafeC.Fold.wcsfcS unrepaired 64 [0x41, 0x110000]).oob = true ∧
+    (SafeC.Fold.wcsfcS allFixed 64 [0x41, 0x110000]).ret = ESLEMAX ∧ (SafeC.Fold.wcsfcS allFixed 64 [0x41, 0x110000]).oob = false := by
+  decide +kernel
+
+/-! ## NFC
+
+`UAX15.nfd xs` = D68 + D109 over UCD 14.0, `UAX15.nfc xs` = D117 (last starter, not blocked per D115, primary composite per D114 incl.
+the Hangul rules of ch. 3.12) applied to it (Proofs/NormNFC2.lean, NormComposeSpec.lean: `d117`, UnicodeSpec.lean: `primaryComposite`).
+Not proved: NFC (NFC xs) = NFC xs. -/
+
+/-- `wcsnorm_s(dest, dmax, src, WCSNORM_NFC, &len)`, every input (any cells, any dmax), as it is and repaired: whenever it returns
+EOK, dest = the Canonical Composition (D117) of the model's NFD with the tree's classes and pair map, `*lenp` = its length `< dmax` -/
+theorem nfc_model (fx : Fixes) (dmax : Nat) (src : List Nat) (h0 : ∀ c ∈ src, c ≠ 0) (hret : (wcsnormS fx 1 dmax src).ret = 0) :
+    (wcsnormS fx 1 dmax src).out = nfcPure fx src ∧ (wcsnormS fx 1 dmax src).len = (nfcPure fx src).length ∧
+    (nfcPure fx src).length < dmax ∧ ∀ c ∈ src, c ≤ UniCompos.unicodeMax := wcsnormS_nfc_spec fx dmax src h0 hret
+
+/-- repaired code (`fixes/wcsnorm-composite-full-width.diff`): NFC of the model = UAX #15 NFC over UCD 14.0, every string (any
+length) of code points assigned in Unicode 14.0 other than U+037E.  (Rests on: classes equal, every composite a starter, and the
+pair map `_composite_cp`+`isExclusion` = D114 as functions on code points: `pcOf_eq_ucd`.) -/
+theorem nfc_is_uax15_fixed_partial (xs : List Nat) (h : ∀ c ∈ xs, UCD.assigned c = true ∧ c ≠ 0x37E) :
+    nfcPure allFixed xs = UAX15.nfc xs := nfcPure_fixed_is_uax15 xs h
+
+example : (∀ c ∈ [0x1EAD, 0x10300, 0xAC01], UCD.assigned c = true ∧ c ≠ 0x37E) ∧
+    UAX15.nfc [0x1EAD, 0x10300, 0xAC01] = [0x1EAD, 0x10300, 0xAC01] ∧ UAX15.nfc [0x61, 0x10300] = [0x61, 0x10300] := by decide +kernel
+
+/-- code as it is: the same, when the NFD of the string lies in the BMP; the full statement is false: `nfc_cast_witness` -/
+theorem nfc_is_uax15_partial (xs : List Nat) (h : ∀ c ∈ xs, UCD.assigned c = true ∧ c ≠ 0x37E)
+    (hbmp : ∀ d ∈ UAX15.nfd xs, d < 0x10000) : nfcPure unrepaired xs = UAX15.nfc xs := nfcPure_unrepaired_is_uax15_bmp xs h hbmp
+
+example : UAX15.nfc [0x61, 0x323, 0x302] = [0x1EAD] ∧ UAX15.nfd [0x1EAD] = [0x61, 0x323, 0x302] ∧
+    (wcsnormS current 1 16 [0x61, 0x302, 0x323]).out = [0x1EAD] := by decide +kernel
+
+/-- the composition lists = UCD 14.0's primary composites: every primary composite is returned for its canonical pair and is
+not excluded (code as it is and repaired); every stored pair whose composite is assigned and not excluded is a primary
+composite with exactly that pair -/
+theorem nfc_pairs_table :
+    (∀ i < UCD14.compN, compositeCp unrepaired (ucdComp i).1 (ucdComp i).2.1 = (ucdComp i).2.2 ∧ isExcl (ucdComp i).2.2 = false ∧
+                        compositeCp allFixed (ucdComp i).1 (ucdComp i).2.1 = (ucdComp i).2.2) ∧
+    (∀ i < UniCompos.listsN, compBwdOk i = true) := by
+  have h := comp_fwd_check
+  simp only [Bool.and_eq_true] at h
+  refine ⟨fun i hi => ?_, fun i hi => allBelow_spec comp_bwd_check i hi⟩
+  have h1 := allBelow_spec h.1 i hi
+  have h2 := allBelow_spec h.2 i hi
+  simp only [compFwdOk, Bool.and_eq_true, beq_iff_eq, Bool.not_eq_eq_eq_not, Bool.not_true] at h1 h2
+  exact ⟨h1.1, h1.2, h2.1⟩
+
+/-- Hangul: L+V and LV+T compose to the syllable whose (standard) decomposition is exactly L V (T), all L, V, T -/
+theorem nfc_hangul (fx : Fixes) (l v t : Nat) (hl : l < 19) (hv : v < 21) (ht0 : 0 < t) (ht : t < 28) :
+    compositeCp fx (0x1100 + l) (0x1161 + v) = 0xAC00 + (l * 21 + v) * 28 ∧
+    compositeCp fx (0xAC00 + (l * 21 + v) * 28) (0x11A7 + t) = 0xAC00 + (l * 21 + v) * 28 + t ∧
+    UCD.hangulDecomp (0xAC00 + (l * 21 + v) * 28 + t) = [0x1100 + l, 0x1161 + v, 0x11A7 + t] :=
+  ⟨(hangul_LV fx l v hl hv).1, (hangul_LVT fx l v t hl hv ht0 ht).1, (hangul_LVT fx l v t hl hv ht0 ht).2⟩
+
+/-- `a` + U+10300 OLD ITALIC LETTER A composes to U+00E0 (`(uint16_t)0x10300 = 0x0300`) -/
+theorem nfc_cast_witness : (wcsnormS unrepaired 1 16 [0x61, 0x10300]).ret = 0 ∧ (wcsnormS unrepaired 1 16 [0x61, 0x10300]).out = [0xE0] ∧
+    UCD.assigned 0x10300 = true ∧ UCD.ccc 0x10300 = 0 ∧ UCD.dm 0x10300 = none := by decide +kernel
+
+/-- repaired (`fixes/wcsnorm-composite-full-width.diff`) -/
+theorem nfc_cast_fixed : (wcsnormS allFixed 1 16 [0x61, 0x10300]).out = [0x61, 0x10300] ∧
+    (wcsnormS allFixed 1 16 [0x61, 0x300]).out = [0xE0] ∧ (wcsnormS allFixed 1 16 [0x1100, 0x1161, 0x11A8]).out = [0xAC01] := by
+  decide +kernel
+
+/-! ## case folding -/
+open SafeC.Fold
+
+/-- the number of cells `towfc_s` writes = what `iswfc` announces (0 announced = the character itself: one cell), EVERY value of c:
+a destination sized from the announced lengths always suffices -/
+theorem fold_count (c : Nat) : (towfcCore c).2.length = max 1 (iswfc c) := fold_cells c
+
+example : (towfcCore 0xfb03).2 = [0x66, 0x66, 0x69] ∧ iswfc 0xfb03 = 3 := by decide +kernel
+
+/-- `iswfc c = 0` exactly when `towfc_s` leaves the character unchanged — outside the 748 listed code points, where the full
+statement fails (`fold_announce_witness_b5`, `fold_announce_witness_3d2`, `fold_announce_exceptions`: the lists are tight) -/
+theorem fold_announce_partial (c : Nat) (hz : inRanges announcesZeroButFolds c = false)
+    (ho : inRanges announcesOneButUnchanged c = false) : iswfc c = 0 ↔ (towfcCore c).2 = [c] := fold_announce_all c hz ho
+
+theorem fold_announce_witness : (iswfc 0xb5 = 0 ∧ (towfcCore 0xb5).2 = [0x3bc]) ∧ (iswfc 0x3d2 = 1 ∧ (towfcCore 0x3d2).2 = [0x3d2]) :=
+  ⟨fold_announce_witness_b5, fold_announce_witness_3d2⟩
+
 end SafeC.Props.C17
